@@ -33,3 +33,17 @@ Lemma isotope_as_documented : forall s, same N.eqb (run tree_isotope s 0 0) (run
 Proof. apply agree_everywhere; vm_compute; reflexivity. Qed.
 Lemma map_as_documented : forall s, same N.eqb (run tree_map s 0 0) (run spec_map s 0 0) = true.
 Proof. apply agree_everywhere; vm_compute; reflexivity. Qed.
+
+(* C05 token level (peek-then-report discipline): whenever a token reader reports Character(i), position i is the
+   highest position it has inspected -- the offending character was looked at, nothing after it was, so the verdict
+   does not depend on anything beyond it.  For every input string. *)
+Definition err_discipline {V} (r : res V) : bool :=
+  match r_out r with OErrChar i => Nat.eqb (S i) (r_peek r) && (r_pos r <=? S i) | _ => true end.
+Lemma discipline_symbol : every tree_symbol err_discipline. Proof. apply every_by_family; vm_compute; reflexivity. Qed.
+Lemma discipline_organic : every tree_organic err_discipline. Proof. apply every_by_family; vm_compute; reflexivity. Qed.
+Lemma discipline_configuration : every tree_configuration err_discipline. Proof. apply every_by_family; vm_compute; reflexivity. Qed.
+Lemma discipline_charge : every tree_charge err_discipline. Proof. apply every_by_family; vm_compute; reflexivity. Qed.
+Lemma discipline_rnum : every tree_rnum err_discipline. Proof. apply every_by_family; vm_compute; reflexivity. Qed.
+Lemma discipline_hcount : every tree_hcount err_discipline. Proof. apply every_by_family; vm_compute; reflexivity. Qed.
+Lemma discipline_isotope : every tree_isotope err_discipline. Proof. apply every_by_family; vm_compute; reflexivity. Qed.
+Lemma discipline_map : every tree_map err_discipline. Proof. apply every_by_family; vm_compute; reflexivity. Qed.
